@@ -49,8 +49,8 @@ func sigFull(f *sfnt.Font, gid glyph.ID) string {
 	switch o := f.Outlines.(type) {
 	case *glyf.Outlines:
 		name := ""
-		if o.Names != nil {
-			name = o.Names[gid]
+		if int(gid) < len(o.Names) {
+			name = o.Names[gid] // (a names list may be shorter than the glyph list)
 		}
 		return fmt.Sprintf("w=%d n=%q %s", o.Widths[gid], name, flatten(o, gid, 0))
 	case *cff.Outlines:
@@ -402,7 +402,12 @@ func TestC10Subset(t *testing.T) {
 		}
 		ctx := func() string { return fmt.Sprintf("list=%v\n%s", list, c) }
 
-		if rapid.IntRange(0, 2).Draw(t, "fromFile") == 0 {
+		if o, ok := f.Outlines.(*glyf.Outlines); ok && len(o.Names) > 1 && rapid.IntRange(0, 7).Draw(t, "shortNames") == 0 {
+			// what the reader returns for a file whose post table lists fewer
+			// names than there are glyphs: the glyphs behind have no name
+			o.Names = o.Names[:rapid.IntRange(1, len(o.Names)-1).Draw(t, "namesLen")]
+			c.Labels = append(c.Labels, "tt-short-names-list")
+		} else if rapid.IntRange(0, 2).Draw(t, "fromFile") == 0 {
 			// the usual way a font gets subset: it has been read from a file
 			// (other slice/map shapes, shared cmap subtables, FDSelect as the
 			// reader builds it)
@@ -813,5 +818,36 @@ func TestC10RegressMacHighCodes(t *testing.T) {
 		if got := st.Lookup(r); got != want {
 			t.Errorf("U+%04X: new glyph %d, want %d", r, got, want)
 		}
+	}
+}
+
+// TestC10RegressShortNames: a TrueType font with a names list shorter than
+// its glyph list (and one without widths) can be subset.
+func TestC10RegressShortNames(t *testing.T) {
+	var c *genfont.Case
+	for seed := 1; ; seed++ {
+		c = genfont.Gen(genfont.Opts{Kind: genfont.KindGlyf, MinGlyphs: 6, MaxGlyphs: 8, Layout: genfont.LayoutNone, NoComposites: true}).Example(seed)
+		if o := c.Font.Outlines.(*glyf.Outlines); len(o.Names) >= 6 {
+			break
+		}
+	}
+	o := c.Font.Outlines.(*glyf.Outlines)
+	o.Names = o.Names[:3]
+	var s *sfnt.Font
+	if pn := guard.Try(func() { s = c.Font.Subset([]glyph.ID{0, 5, 2}) }); pn != nil {
+		t.Fatalf("Subset panicked on a short names list: %s", pn)
+	}
+	if got, want := s.GlyphName(2), c.Font.GlyphName(2); got != want {
+		t.Errorf("glyph 2 of the subset is named %q, the original glyph %q", got, want)
+	}
+	if got := s.GlyphName(1); got != "" {
+		t.Errorf("glyph 1 of the subset (old glyph 5, beyond the names list) is named %q", got)
+	}
+	o.Names, o.Widths = nil, nil
+	if pn := guard.Try(func() { s = c.Font.Subset([]glyph.ID{0, 5, 2}) }); pn != nil {
+		t.Fatalf("Subset panicked on a font without widths: %s", pn)
+	}
+	if w := s.GlyphWidth(1); w != 0 {
+		t.Errorf("width %v for a glyph of a font without widths", w)
 	}
 }
